@@ -73,6 +73,16 @@ CLAIMED.update({
          "lengths, zero types and the ParameterDescription count.",
          CONN_NOTE, "pure function transcribed into TLA+ (PgOps.CountParams), enumerated by TLC, each case replayed on "
          "the real function and through the real server, validated by TLC", "4 C20"),
+ "C16": ("TLC checks the lifecycle model PgServer (one action per hook point of Close and command admission): safety "
+         "(no double close, counter never negative, Close returns only when no handler runs, no handler starts after a "
+         "Close returned) on the bounded model and liveness (every Close returns, Serve returns nil) under fairness; the "
+         "pinned design is kept as a negative self-test. Every interleaving of a permissive scheduler model is replayed on "
+         "real goroutines parked at the verif hook points, and the real order of releases, arrivals, returns, panics, "
+         "listener close and Serve return is validated by TLC against the repaired design.",
+         "Trusted: TLC, the schedule gates and goroutine-state inspection of the harness, the hook points (add-only, "
+         "build tag verif). Bounds: 2 closers x 1-2 connections x 1-2 commands.",
+         "TLA+ spec (PgServer) + TLC safety/liveness model checking + replay of TLC-generated schedules on real goroutines "
+         "through hook gates + TLC trace validation of the observed event order", "4 C16"),
 })
 NOT_YET = "machinery for this property is not built yet in this revision (planned, see DESIGN.md section 4)"
 
